@@ -6,6 +6,8 @@ import PsVerif.Model.PFB
 import PsVerif.Model.Names
 import PsVerif.Model.Query
 import PsVerif.Model.T1Decode
+import Driver.SerDriver
+import Driver.RefillDriver
 /-!
 `psdriver`: reads one case per line from stdin, prints the model's canonical result
 line for each.  A line the driver cannot parse gives `bad-op` (never a default).
@@ -62,6 +64,8 @@ def handle (line : String) : String :=
     | some ss, some c => csResult ss c
     | _, _ => "bad-op"
   | ["csf", _, _] => "skip"
+  | "ser" :: _ => serVerb line
+  | "refill" :: _ => refillVerb line
   | "cmap" :: _ => "skip"
   | "cmapmulti" :: _ => "skip"
   | "afm" :: _ => "skip"
